@@ -110,16 +110,17 @@ class LocationPath(BaseASTNode):
         if old.issuperset(new): return intermediate
 
         def traverse(node, stack):
-            if node in visited: return
-
             if node in new:
                 intermediate.update(stack)
-            else:
-                stack = stack + [node]
-                for i in node.values():
-                    if queryIndirect or i.direct:
-                        traverse(i.node, stack)
-                visited.add(node)
+            if node in visited: return
+
+            # Descend below result nodes too. Other results might only be
+            # reachable through them.
+            stack = stack + [node]
+            for i in node.values():
+                if queryIndirect or i.direct:
+                    traverse(i.node, stack)
+            visited.add(node)
 
         for n in old: traverse(n, [])
 
